@@ -120,7 +120,8 @@ Proof. exact record_roundtrip. Qed.
    [question_stands msg p q e] / [record_stands msg p x e] (Proofs/MessageRT.v): at offset p stands
    a name with a legal expansion into the labels of q / x (any legal compression, valid labels,
    at most 255 octets) followed where it resumes by QTYPE QCLASS / by TYPE CLASS TTL RDLENGTH and
-   the RFC wire form of the value; e is the offset behind it.  The item the code-blind pass finds
+   the data — the RFC wire form of a value of one of the 17 typed formats ([SVal]) or any octets
+   at all ([SRaw]: OPT records, unknown types); e is the offset behind it.  The item the code-blind pass finds
    there carries exactly these fields and offsets, with its data inside the message. *)
 Theorem C02_standing_items : forall msg,
   (forall p q e, question_stands msg p q e -> question_at msg p = Some (qitem p q e)) /\
@@ -142,17 +143,25 @@ Proof. exact message_parsed. Qed.
 
 (* and the typed decoder run at the data offset of a standing record returns its value and stops
    at the end of the record *)
-Theorem C02_standing_record_decodes : forall msg p x e c,
-  record_stands msg p x e -> whole msg c -> pos c = a_type_off (ritem p x e) + 10 ->
+Theorem C02_standing_record_decodes : forall msg p x e c a,
+  record_stands msg p x e -> sr_data x = SVal a -> whole msg c -> pos c = a_type_off (ritem p x e) + 10 ->
   exists m, read_rdata msg (sr_type x) (a_rdlen (ritem p x e)) = Some m /\
-            m c = (c_set_pos c e, Ok (rdata_val (sr_data x))).
+            m c = (c_set_pos c e, Ok (rdata_val a)).
 Proof. exact standing_record_decodes. Qed.
+
+(* every kind of record — OPT, types without a typed decoder, anything ([SRaw]) as well as the 17
+   typed formats — has exactly its data octets at the item's data offset: what record_data_bytes /
+   record_data_bytes_at return (C09_record_data_flavours, C04_raw), and for an OPT header what
+   opt_record derives from CLASS and TTL (C02_opt_fields) *)
+Theorem C02_standing_record_bytes : forall msg p x e, record_stands msg p x e ->
+  subN msg (a_type_off (ritem p x e) + 10) (a_rdlen (ritem p x e)) = sdata_enc (sr_data x).
+Proof. exact standing_record_bytes. Qed.
 
 (* the premises are satisfiable: a 35-octet response with one question and one answer whose owner
    is a compression pointer to the question name *)
 Example C02_whole_message_example :
   let q := mkSQ [(12, [x61])] 1 1 in
-  let x := mkSR [(12, [x61])] 1 1 60 (A_A 16909060) in
+  let x := mkSR [(12, [x61])] 1 1 60 (SVal (A_A 16909060)) in
   questions_stand example_msg 12 [q] 19 /\ records_stand example_msg 19 [x] 35 /\ lenN example_msg = 35.
 Proof. exact example_stands. Qed.
 
